@@ -454,7 +454,8 @@ func stackRun(w *World, raceOnly bool) {
 				}
 			})
 		}
-		w.Go("race-pull", false, func(task *Task) { st = openPull(false, false) })
+		raceUpdatesOnly := t.Flag(1, 3)
+		w.Go("race-pull", false, func(task *Task) { st = openPull(raceUpdatesOnly, false) })
 		w.Go("race-judge", false, func(task *Task) {
 			task.Settle("race")
 			for k := 0; k < 3 && st == nil; k++ {
@@ -479,7 +480,12 @@ func stackRun(w *World, raceOnly bool) {
 			last := newMsg(tr.resource)
 			if len(got) > 0 {
 				last = got[len(got)-1].ProtoReflect().Get(tr.changeValue).Message().Interface()
+			} else if st.updatesOnly {
+				return // it was opened after the last publication: nothing is owed to it
 			}
+			// (an updates-only stream that has received anything has received everything published since, in commit
+			// order: its last event is the value as well)
+			task.Note("race: update error %v; Get %v; stream %v", uerr, after, got)
 			if uerr == nil && significantlyDifferent(last.ProtoReflect(), after.ProtoReflect(), 1) && !equalModuloListOrder(last, after) {
 				bad("update-not-streamed", fmt.Sprintf("a Pull was opened while Update -> %v was in progress; both have returned and the system is at rest: Get returns %v but the stream (reader in Recv) has received %v", resp, after, got))
 			}
